@@ -53,6 +53,7 @@ CATALOGUE = [
     ("exp_dropped", "C11", "parameter/parameter.py", "self.value = np.exp(value) if self.non_negative else value", "self.value = value", 1),
     ("vary_ignored", "C11", "parameter/parameters.py", "if not exclude_non_vary or parameter.vary:", "if True:", 1),
     ("expression_single_pass", "C12", "parameter/parameters.py", "            for match in PARAMETER_EXPRESSION_REGEX.findall(parameter.expression):\n                if self.has(match[0]):\n                    update(self.get(match[0]))\n", "", 1),
+    ("additional_penalty_of_last_call", "C13", "optimization/optimizer.py", '        full_penalty = self.calculate_penalty()\n        result_args["cost"] = 0.5 * np.dot(full_penalty, full_penalty)\n\n        result_args["additional_penalty"] = [\n            group.get_additional_penalties() for group in self._optimization_groups\n        ]\n', '        result_args["additional_penalty"] = [\n            group.get_additional_penalties() for group in self._optimization_groups\n        ]\n\n        full_penalty = self.calculate_penalty()\n        result_args["cost"] = 0.5 * np.dot(full_penalty, full_penalty)\n', 1),
     ("dof_without_clps", "C13", "optimization/optimizer.py", '                - result_args["number_of_clps"]\n', "", 1),
     ("rmse_not_sqrt", "C13", "optimization/optimizer.py", 'np.sqrt(result_args["reduced_chi_square"])', 'result_args["reduced_chi_square"]', 1),
     ("covariance_unmasked", "C13", "optimization/optimizer.py", "mask = jacobian_sv_square > np.finfo(float).eps", "mask = jacobian_sv_square > -1", 1),
